@@ -484,6 +484,8 @@ def _cases(ctx):
             out.append(_mk('crowded', [a, a + 5 * ml], [d, d], ra_c, dec_c, ml, None, mm))
         else:
             out.append(_mk('crowded', ra_c, dec_c, [a, a + 5 * ml], [d, d], ml, None, mm))
+        # a second list of exactly one point with many partners and a small limit: it may be used at most maxmatch times
+        out.append(_mk('crowded-one', ra_c[:60], dec_c[:60], [a], [d], ml, None, int(r.choice([1, 2, 5]))))
     # the input on which the unfixed tree raised "cosDecMin not positive" (decBounds[nDec] rounds above 90)
     out.append(_mk('pole-rounding', [243.680464368093, 232.46628462283945, 172.06221883782882, 224.93591330635513, 83.29745871337013],
                    [61.14690863082591, 27.082188874300428, 44.841729370178975, 89.999, 43.60260839677979],
